@@ -594,6 +594,23 @@ func (env *Env) callSpec(n *ECall) Val {
 			}
 		}
 		fail("no field %s", fn.V)
+	case "purecall":
+		// purecall("invoke:io/fs.DirEntry.IsDir", d): the uninterpreted function a pure library call is modelled by
+		nm, ok := n.Args[0].(*EStr)
+		if !ok || !env.e.W.IsPure(nm.V) {
+			fail("purecall needs the name of a function listed in lib/pure.txt")
+		}
+		var sorts, ts []string
+		for i := 1; i < len(n.Args); i++ {
+			a := arg(i)
+			sorts = append(sorts, env.sortOf(a))
+			ts = append(ts, a.T)
+		}
+		rs, ok := env.e.W.pureResultSort[nm.V]
+		if !ok {
+			fail("purecall %s: result sort unknown (the function is not called in the code under contract)", nm.V)
+		}
+		return Val{T: env.e.W.UF("pure."+mangle(nm.V), sorts, rs, ts...), Sort: rs, Ty: goTypeOfSort(rs)}
 	case "errmsg":
 		return Val{T: env.e.W.UF("errmsg", []string{"Int"}, "String", arg(0).T), Ty: tString}
 	case "isNotExist":
